@@ -11,8 +11,16 @@ from .. import jsonx
 from ..runner import OracleViolation, Violation, hyp
 
 
+class CaseTimeout(BaseException):
+    """Wall-clock watchdog for one generated case (a synchronous endless loop in the code under test would hang
+    the whole check): the case is counted inconclusive, never a violation."""
+
+
 class CaseExcluded(Exception):
     """The case ran into a listed known finding: it is truncated and counted."""
+
+
+CASE_WALL_LIMIT = 120.0
 
 
 def quiet_logging():
@@ -134,6 +142,13 @@ def drive(ctx, engine_cls, n, min_steps=5, max_steps=60, offset=0, **kw):
         ctx.current = {"engine": engine_cls.NAME, "config": config, "trace": eng.trace}
         nsteps = data.draw(st.integers(min_steps, max_steps), label="nsteps")
         excluded = ended = False
+        import signal
+
+        def _alarm(sig, frm):
+            raise CaseTimeout()
+
+        old = signal.signal(signal.SIGALRM, _alarm)
+        signal.setitimer(signal.ITIMER_REAL, CASE_WALL_LIMIT)
         try:
             for _ in range(nsteps):
                 step = eng.draw_step(data.draw)
@@ -144,6 +159,14 @@ def drive(ctx, engine_cls, n, min_steps=5, max_steps=60, offset=0, **kw):
         except CaseExcluded as e:
             ended = True
             excluded = not str(e).startswith("foreign:")
+        except CaseTimeout:
+            ended = True
+            ctx.inconclusive += 1
+            eng.labels.add("inconclusive-wall-clock-watchdog")
+            ctx.extra["watchdog_trace"] = jsonx.dumps({"config": config, "trace": eng.trace})[:4000]
+        finally:
+            signal.setitimer(signal.ITIMER_REAL, 0)
+            signal.signal(signal.SIGALRM, old)
         labels = sorted(eng.labels) + (["excluded-by-known-finding"] if excluded else [])
         ctx.case(key=[config, eng.trace], nontrivial=eng.nontrivial() and not ended, labels=labels,
                  sample={"config": config, "trace": eng.trace[:40], "observed": eng.summary()})
